@@ -340,10 +340,70 @@ def run(ctx):
         many = b''.join(msgs[:5]) * 400
         decode_one(ctx, many, 'many-messages-one-read', {'kind': 'many'}, 'protocol')
 
+    # E3. a hostile peer on the built-in bus: malformed bodies addressed to *another* connection must cost the sender
+    #     its own connection only — the addressee never sees bytes that do not decode, and stays connected
+    if si == 0:
+        bus_forwarding(ctx, rng, 40 if quick else 400)
+
     # F. memory, sampled
     if si == 0:
         memory_samples(ctx, msgs, rng)
     return finish(ctx)
+
+
+def bus_forwarding(ctx, rng, per_message):
+    from harness import busnet
+    net = busnet.Net()
+    victim = net.raw_client()
+    attacker = net.raw_client()
+    bodies = [('s', ['hello world']), ('as', [['a', 'bc', 'def']]), ('a{sv}', [[('k', Variant('u', 7)), ('l', Variant('s', 'x'))]]),
+              ('v', [Variant('(is)', [5, 'y'])]), ('ay', [list(range(20))]), ('sd', ['x', 1.5])]
+    for sig, body in bodies:
+        for mtype in (RM.METHOD_CALL, RM.SIGNAL, RM.METHOD_RETURN):
+            fields = {'destination': victim.unique}
+            if mtype in (RM.METHOD_CALL, RM.SIGNAL):
+                fields.update(path='/a', member='M', interface='a.b')
+            else:
+                fields['reply_serial'] = 9
+            raw = RM.build(mtype, 50, fields, sig, body, rng.random() < 0.7)
+            body_len = len(R.encode(sig, body, 0, raw[0:1] == b'l'))
+            start = len(raw) - body_len
+            positions = list(range(start, len(raw)))
+            rng.shuffle(positions)
+            for pos in positions[:per_message]:
+                orig = raw[pos]
+                for v in (orig ^ 0x80, orig ^ 0x01, 0x00, 0xFF, (orig + 1) & 0xFF):
+                    if v == orig:
+                        continue
+                    data = raw[:pos] + bytes([v]) + raw[pos + 1:]
+                    if attacker.server.lost or attacker.closed_by_bus:
+                        attacker = net.raw_client()
+                        ctx.count('attackers_dropped')
+                    attacker.serial += 1
+                    attacker.send_raw(data)
+                    ctx.count('evaluations')
+                    ctx.count('bus_forwarded_hostile')
+                    got = victim.take()
+                    w = {'sig': sig, 'type': mtype, 'pos': pos - start, 'value': v, 'bytes': data}
+                    # judged with txdbus' own decoder, as a txdbus addressee would apply it: the statement allows decoding
+                    # to end "with a decoded message", so what txdbus decodes (e.g. a NUL inside a string) is not held
+                    # against the bus even where the reference reader is stricter
+                    for m in got:
+                        try:
+                            MSG.parseMessage(m.raw, [])
+                        except Exception as e:
+                            w['addressee_error'] = repr(e)
+                            ctx.report('malformed-forwarded', 'the bus forwarded to ANOTHER connection a message that '
+                                       'txdbus itself cannot decode (%r): the addressee, not the sender, pays' % e,
+                                       w, {'kind': 'busfwd'})
+                            return
+                        if m.malformed:
+                            ctx.count('bus_forwarded_lenient_only')
+                    if victim.server.lost or victim.closed_by_bus or victim.server.crashes:
+                        ctx.report('bystander-dropped', 'a hostile message from one connection cost ANOTHER connection its '
+                                   'link to the bus', w, {'kind': 'busfwd'})
+                        return
+                    ctx.distinct('nontrivial_cases', ('busfwd', sig, mtype, bool(got)))
 
 
 def memory_samples(ctx, msgs, rng):
@@ -387,8 +447,11 @@ def finish(ctx):
         print('CALIBRATION: max ratio steps/((n+64)(8+L^2/4)) = %.4f at %r; max steps/byte %.1f' % (
             _stats['max_ratio'], _stats['max_ratio_case'], _stats['max_steps_per_byte']))
     ctx.require(METER.ncode > 50, 'step meter instrumented only %d code objects' % METER.ncode)
-    for fn in ('parseMessage', 'unmarshal', 'unmarshal_array', 'genCompleteTypes'):
-        ctx.require(any(k.endswith(fn) for k in METER.calls), 'meter never saw %s run' % fn)
+    # reach: the meter must have observed the decoder at work (by volume, not by function names, so that a
+    # refactored decoder does not make the check inconclusive)
+    ctx.note('functions_reached', sorted(METER.calls)[:40])
+    ctx.require(len(METER.calls) >= 5 and sum(METER.calls.values()) > 10000,
+                'step meter saw almost nothing of txdbus run (%d functions)' % len(METER.calls))
     ctx.require(ctx.counters.get('evaluations', 0) > 5000, 'too few decodes')
 
 
